@@ -2013,9 +2013,47 @@ impl<'a> CompileState<'a> {
                 Ok(ConstValue::Struct(ConstStruct {
                     name: identifier.inner.clone(),
                     fields: {
+                        // Check the literal against the struct definition, like
+                        // struct literals in expressions are.
                         let mut value_fields = BTreeMap::new();
                         for (value, expr) in fields {
-                            value_fields.insert(value.inner.clone(), self.expression_value(expr)?);
+                            let def_field = struct_def
+                                .iter()
+                                .find(|f| f.identifier.inner == value.inner)
+                                .ok_or_else(|| {
+                                    let note = format!(
+                                        "field `{}` not found in `Struct {}`",
+                                        value.inner, identifier
+                                    );
+                                    self.err(NotDefined(note, value.span))
+                                })?;
+                            let field_value = self.expression_value(expr)?;
+                            let field_type = field_value.vtype(expr.span);
+                            if !field_type.fits_type(&def_field.field_type) {
+                                return Err(self.err(InvalidType::new(
+                                    def_field.field_type.to_string(),
+                                    Some(def_field.span()),
+                                    field_type.to_string(),
+                                    expr.span,
+                                )));
+                            }
+                            if value_fields
+                                .insert(value.inner.clone(), field_value)
+                                .is_some()
+                            {
+                                let note = format!("field `{}` is set twice", value.inner);
+                                return Err(self.err(BadArgument(note, value.span)));
+                            }
+                        }
+                        if let Some(missing) = struct_def
+                            .iter()
+                            .find(|f| !value_fields.contains_key(&f.identifier.inner))
+                        {
+                            let note = format!(
+                                "field `{}` of `Struct {}` is not initialized",
+                                missing.identifier.inner, identifier
+                            );
+                            return Err(self.err(NotDefined(note, identifier.span)));
                         }
                         value_fields
                     },
